@@ -13,13 +13,13 @@ RULE = (
     "every length n = 1..Nmax (64 quick / 256 thorough) x data classes {constant, impulse at every position (n<=32), alternating, "
     "large dynamic range, seeded normal}: rfft().ifft() == zero-padded input, Parseval, spectrum == float64 DFT sum, form_spec == |bin|; "
     "every pair 1 <= m <= n <= Mmax (48 / 96): kernels.fftconvolve == np.convolve (float64), TimeSeries.correlate == full correlation at "
-    "lags -(m-1)..n-1. Non-trivial = n >= 2; lengths whose FFT size is odd or not equal to n are counted separately"
+    "lags -(m-1)..n-1; the same identities on series of 131073, 262144 and 300001 samples (thorough: up to 2**20) against a float64 FFT, and a 70 001 x 513 convolution/correlation against direct float64 sums. Non-trivial = n >= 2; lengths whose FFT size is odd or not equal to n are counted separately"
 )
 ASSUMPTIONS = [
     "absolute tolerance 16*eps32*log2(n+1)*||x||_2 per element (for convolution/correlation ||a||_2*||b||_2): float32 FFT rounding, calibrated (observed/limit is recorded)",
     "data values come from five classes drawn from VERIF_SEED; the enumerated dimension is the length (and the kernel length)",
 ]
-REQUIRED_OUTCOMES = ["roundtrip/ok", "roundtrip/odd_fft_size", "roundtrip/padded", "parseval/ok", "dft/ok", "mspec/ok", "convolve/ok", "correlate/ok"]
+REQUIRED_OUTCOMES = ["roundtrip/ok", "roundtrip/odd_fft_size", "roundtrip/padded", "parseval/ok", "dft/ok", "mspec/ok", "convolve/ok", "correlate/ok", "long_series/ok", "long_convolve/ok"]
 
 EPS32 = float(np.finfo(np.float32).eps)
 
@@ -36,6 +36,9 @@ def shards(tier: str, seed: int) -> list:
         out.append({"kind": "series", "lo": lo, "hi": min(b["Nmax"], lo + step - 1)})
     for n in range(1, b["Mmax"] + 1):
         out.append({"kind": "conv", "n": n})
+    # scale lane: series of 2**17 .. 2**20 samples (spectra of more than 65536 and 131072 bins), convolutions of 70 001 x 513
+    for n in ((131073, 262144, 300001) if tier == "quick" else (65537, 131073, 262144, 300001, 524288, 1000003, 1048576)):
+        out.append({"kind": "long", "n": n})
     return out
 
 
@@ -62,8 +65,87 @@ def _hdr(n):
 def run_shard(shard: dict, ctx, res, only=None) -> None:
     if shard["kind"] == "series":
         _series(shard, ctx, res, only)
+    elif shard["kind"] == "long":
+        _long(shard, ctx, res, only)
     else:
         _conv(shard, ctx, res, only)
+
+
+def _long(shard, ctx, res, only):
+    """Long series: the float64 FFT stands in for the DFT sum (validated against the explicit sum on a short array first)."""
+    from sigpyproc.core import kernels
+    from sigpyproc.timeseries import TimeSeries
+
+    n = shard["n"]
+    rng = np.random.default_rng([ctx.seed, n, 3])
+    probe = rng.normal(0, 1, 45)
+    k = np.arange(23)[:, None]
+    t = np.arange(45)[None, :]
+    if not np.allclose(np.fft.rfft(probe), (probe[None, :] * np.exp(-2j * np.pi * k * t / 45)).sum(1), rtol=0, atol=1e-11):
+        res.evaluations += 1
+        res.violation({"site": "harness", "symptom": "float64 FFT reference != DFT sum"}, {"shard": shard, "inner": None}, "")
+        return
+    for cname in ("normal", "offset_tone"):
+        if only is not None and [cname] != only:
+            continue
+        case = {"shard": shard, "inner": [cname]}
+        rng = np.random.default_rng([ctx.seed, n, 3, len(cname)])  # per class: a replay of one class sees the same data
+        x = rng.normal(0, 1, n).astype(np.float32)
+        if cname == "offset_tone":
+            x = (5.0 + x + 3.0 * np.where(np.arange(n) % 2, -1.0, 1.0) + np.cos(2 * np.pi * 0.25 * np.arange(n))).astype(np.float32)
+        res.evaluations += 1
+        try:
+            ts = TimeSeries(x, _hdr(n))
+            fs = ts.rfft()
+            ng = int(fs.header.nsamples)
+            X = np.asarray(fs.data, dtype=np.complex128)
+            ms = np.asarray(fs.form_spec().data, dtype=np.float64)
+            back = np.asarray(fs.ifft().data, dtype=np.float64)
+        except Exception as e:  # noqa: BLE001
+            res.violation({"site": "TimeSeries.rfft/form_spec/ifft", "symptom": f"raised {type(e).__name__} on a long series"}, case, f"n={n}: {e!r}")
+            continue
+        xp = np.zeros(ng)
+        xp[:n] = x
+        norm = float(np.linalg.norm(xp))
+        D = np.fft.rfft(xp)
+        # norm-wise float32 FFT bound plus the representation error of the largest bins (DC and Nyquist of the offset/tone class are ~1e6)
+        lim = 16 * EPS32 * np.log2(n + 1) * norm + 2 * EPS32 * float(np.max(np.abs(D)))
+        bad = None
+        if ng < n or X.size != ng // 2 + 1:
+            bad = ("TimeSeries.rfft", "transform length/bins inconsistent", f"n={n} n_fft={ng} bins={X.size}")
+        elif not (float(np.max(np.abs(X - D))) <= lim):
+            j = int(np.argmax(np.abs(X - D)))
+            bad = ("TimeSeries.rfft", "spectrum differs from the discrete Fourier sum", f"n={n}: bin {j}: got {X[j]} want {D[j]}")
+        elif ms.shape != (X.size,) or not (float(np.max(np.abs(ms - np.abs(X)))) <= 4 * EPS32 * max(float(np.max(np.abs(X))), 1e-30)):
+            j = int(np.argmax(np.abs(ms - np.abs(X)))) if ms.shape == (X.size,) else -1
+            bad = ("FourierSeries.form_spec", "amplitude spectrum differs from |bin|", f"n={n}: {ms.shape[0]} values for {X.size} bins; worst bin {j}: got {ms[j] if j >= 0 else None} want {abs(X[j]) if j >= 0 else None}")
+        elif back.shape != (ng,) or not (float(np.max(np.abs(back - xp))) <= 64 * EPS32 * np.log2(n + 1) * float(np.max(np.abs(xp)))):
+            bad = ("FourierSeries.ifft", "round trip differs from the zero-padded input", f"n={n} n_fft={ng} got length {back.shape}")
+        if bad:
+            res.violation({"site": bad[0], "symptom": bad[1], "long": True}, case, bad[2])
+            continue
+        res.outcome("long_series/ok")
+        res.nontrivial += 1
+        # a long convolution / correlation against float64 FFT-free evaluation (np.convolve on float64 is a direct sum)
+        res.evaluations += 1
+        m = 513
+        a, b = x[:70001], rng.normal(0, 1, m).astype(np.float32)
+        try:
+            got = np.asarray(kernels.fftconvolve(a, b), dtype=np.float64)
+            gotc = np.asarray(TimeSeries(a, _hdr(a.size)).correlate(b).data, dtype=np.float64)
+        except Exception as e:  # noqa: BLE001
+            res.violation({"site": "kernels.fftconvolve", "symptom": f"raised {type(e).__name__} on a long series"}, case, repr(e))
+            continue
+        a64, b64 = a.astype(np.float64), b.astype(np.float64)
+        want, wantc = np.convolve(a64, b64), np.correlate(a64, b64, mode="full")
+        lim2 = 16 * EPS32 * np.log2(a.size + m) * float(np.linalg.norm(a64) * np.linalg.norm(b64))
+        if got.shape != want.shape or not (float(np.max(np.abs(got - want))) <= lim2):
+            res.violation({"site": "kernels.fftconvolve", "symptom": "differs from the full linear convolution", "long": True}, case, f"n={a.size} m={m}")
+        elif gotc.shape != wantc.shape or not (float(np.max(np.abs(gotc - wantc))) <= lim2):
+            res.violation({"site": "TimeSeries.correlate", "symptom": "differs from the full correlation at lags -(m-1)..n-1", "long": True}, case, f"n={a.size} m={m}")
+        else:
+            res.outcome("long_convolve/ok")
+            res.nontrivial += 1
 
 
 def _series(shard, ctx, res, only):
